@@ -56,7 +56,10 @@ package zksch
 //@   inline
 //@   requires hash != nil && hash.h != nil && group != nil && commitment != nil && shapedComm(commitment) && public != nil && gen != nil
 
+// The verification equation (C10, C03): a response is accepted only if  z*G = e*X + A  with e the scalar drawn from the
+// digest of the transcript after the commitment, the public point and the generator were absorbed.
 //@ func (*Response).Verify
+//@   ensures[C10,C03] (result && gen != nil) ==> (z != nil && act(scval(z.Z), ptval(gen)) == p_add(act(sc_from(hdig(hstate(hash))), ptval(public)), ptval(commitment.C)))
 //@   nopanic[C05]
 //@   modifies hstate(hash), wlog(hash.h)
 //@   requires hash != nil && hash.h != nil && public != nil && commitment != nil && shapedComm(commitment) && (z != nil ==> shapedResp(z))
